@@ -256,3 +256,10 @@ Definition encode_pubrel (pid rc : N) : sres := enc_ack CONTROL_PACKET_LEN 6 pid
 
 Definition too_large (mps : option N) (len : N) : bool :=
   match mps with Some m => m <? len | None => false end.
+
+(* an entry some but not all of whose bytes have been handed to the transport *)
+Definition sstate_partial (st : sstate) : bool := match st with SWrite k => negb (N.eqb k 0) | _ => false end.
+Definition has_partial (o : outbound) : bool :=
+  existsb (fun e => sstate_partial (ce_st e)) (ob_ctl o) || existsb (fun e => sstate_partial (le_st e)) (ob_rel o)
+  || existsb (fun e => sstate_partial (re_st e)) (ob_ret o).
+
